@@ -1217,6 +1217,96 @@ fn send_buffer_full(rng: &mut Rng, seed: u64, verbose: bool) -> CaseOut {
     out
 }
 
+/// C15, a transport that - once, or from some point on for good - accepts nothing (`Ok(0)` for a
+/// non-empty buffer), under every write pattern and at every offset of the outbound stream: the
+/// call that was given that answer reports it (WriteZero) wherever in a packet it fell, no call
+/// spins, and after a single such answer the later calls finish what was begun: the stream ends up
+/// the same as without it.
+fn accepts_nothing(rng: &mut Rng, seed: u64, verbose: bool) -> CaseOut {
+    let mut out = CaseOut::default();
+    let cfg = CaseCfg { rx: 128, tx: 1024, keepalive: 0, ..CaseCfg::default() };
+    let mut reqs: Vec<Step> = Vec::new();
+    for k in 0..rng.range(2, 4) {
+        reqs.push(match rng.below(4) {
+            0 => pub1("zero", 1 + k as u32, rng.below(30)),
+            1 => pubq(2, "zero2", 10 + k as u32, rng.below(30)),
+            2 => Step::Subscribe(SubSpec { filters: vec![FilterSpec { filter: "zero/#".into(), max_qos: 1, no_local: false, rap: false, rh: 0 }], props: vec![], cancel_at: None }),
+            _ => Step::Unsubscribe(UnsubSpec { filters: vec!["zero".into(), "x/y".into()], props: vec![], cancel_at: None }),
+        });
+    }
+    let ch = *rng.pick(&[Chunk::All, Chunk::One, Chunk::Fixed(2), Chunk::Fixed(3), Chunk::AltOneAll, Chunk::AllButOne]);
+    let build = |faults: Vec<FaultPlan>| {
+        let mut s = vec![connect_with(SpMode::Force(false), AckMode::Hold, vec![]), Step::Io { policy: Some(IoPolicy { write: ch, ..IoPolicy::default() }), faults }];
+        s.extend(reqs.iter().cloned());
+        for _ in 0..4 {
+            s.push(poll0());
+        }
+        s
+    };
+    let (alog, aworld) = run_script(&cfg, build(vec![]), seed);
+    let (a_bytes, connect_len) = {
+        let w = aworld.borrow();
+        (w.conns[0].out.bytes.clone(), w.conns[0].out.packets.first().map(|p| p.end).unwrap_or(0))
+    };
+    let _ = alog;
+    if a_bytes.len() <= connect_len + 2 {
+        return out;
+    }
+    let n = connect_len + rng.below(a_bytes.len() - connect_len);
+    for forever in [false, true] {
+        let faults = vec![FaultPlan { at: FaultAt::OutBytes(n), kind: FaultKind::WriteZero }; if forever { 6000 } else { 1 }];
+        let (log, world) = run_script(&cfg, build(faults), seed);
+        let w = world.borrow();
+        out.evaluations += 1;
+        out.count("twins_compared", 1);
+        let bytes = &w.conns[0].out.bytes;
+        let mut hit = false;
+        for o in log.ops.iter().filter(|o| o.conn == Some(0) && o.kind != "connect") {
+            let zero = w.events[o.ev_call..=o.ev_ret.min(w.events.len() - 1)].iter().any(|e| matches!(e, Ev::Io { kind: crate::world::IoKind::Write, req, ans: IoAns::Zero, .. } if *req > 0));
+            if w.events[o.ev_call..=o.ev_ret.min(w.events.len() - 1)].iter().any(|e| matches!(e, Ev::Watchdog | Ev::ClockSpin)) {
+                out.violations.push(viol("C15", "C15/accepts-nothing/call-does-not-return", format!("writes accepted {:?}, transport accepts nothing from stream offset {} on ({}): {} exceeded the per-call budget of transport calls instead of reporting it", ch, n, if forever { "for good" } else { "once" }, o.kind)));
+                return out;
+            }
+            if zero {
+                hit = true;
+                if o.outcome != Outcome::Err(ErrRepr::WriteZero) {
+                    let inside = !w.conns[0].out.packets.iter().any(|p| p.start == n) || n != bytes.len();
+                    out.violations.push(viol("C15", "C15/accepts-nothing/not-reported", format!("writes accepted {:?}: a write at stream offset {} ({} a packet) was answered Ok(0) and {} returned {:?} instead of WriteZero", ch, bytes.len().min(n.max(connect_len)), if inside { "inside" } else { "at the start of" }, o.kind, o.outcome)));
+                    if verbose {
+                        for l in render(&log, &w, 300) {
+                            println!("{}", l);
+                        }
+                    }
+                    return out;
+                }
+            }
+        }
+        if hit {
+            out.count("writes_answered_with_nothing_accepted", 1);
+            let mid = !aworld.borrow().conns[0].out.packets.iter().any(|p| p.start == bytes.len().min(a_bytes.len())) || !forever;
+            if mid {
+                out.count("variants_with_split_packets", 1);
+            }
+            out.nontrivial.push(hash_of(&(abstract_trace(&log, &w), forever, n - connect_len)));
+        }
+        if forever {
+            if !a_bytes.starts_with(bytes) {
+                out.violations.push(viol("C15", "C15/accepts-nothing/stream-differs", format!("writes accepted {:?}, nothing accepted from offset {} on: the {} bytes that did go out are not a prefix of the stream without the fault", ch, n, bytes.len())));
+            }
+        } else if *bytes != a_bytes {
+            let at = a_bytes.iter().zip(bytes.iter()).position(|(a, b)| a != b).unwrap_or(a_bytes.len().min(bytes.len()));
+            out.violations.push(viol("C15", "C15/accepts-nothing/stream-differs-after-one-refusal", format!("writes accepted {:?}, one write at offset {} answered Ok(0), the application carried on: the outbound stream differs from the one without that answer at byte {} ({} vs {} bytes)", ch, n, at, bytes.len(), a_bytes.len())));
+            if verbose {
+                for l in render(&log, &w, 300) {
+                    println!("{}", l);
+                }
+            }
+        }
+    }
+    out.key(format!("accepts-nothing/{:?}", ch));
+    out
+}
+
 /// C15, a packet that meets the broker's Maximum Packet Size exactly (or misses it by a byte or
 /// two) is accepted by the transport in pieces of every kind: results and stream as with whole
 /// writes. The packet is a request's own, or (limit 5) an acknowledgement the client owes.
@@ -1676,13 +1766,13 @@ impl Check for C15 {
         v
     }
     fn workloads(&self) -> Vec<Workload> {
-        vec![Workload { name: "fragment-twin", quick: 900, thorough: 600_000 }, Workload { name: "exhaustive-chunkings", quick: 60, thorough: 6000 }, Workload { name: "stalls-under-keepalive", quick: 400, thorough: 600_000 }, Workload { name: "connection-cut-inside-a-packet", quick: 150, thorough: 30_000 }, Workload { name: "send-buffer-full-inside-a-packet", quick: 300, thorough: 60_000 }, Workload { name: "connection-ends-inside-an-outbound-packet", quick: 200, thorough: 40_000 }, Workload { name: "outbound-packets-above-64k", quick: 12, thorough: 600 }, Workload { name: "stalled-disconnect-then-reconnect", quick: 200, thorough: 40_000 }, Workload { name: "stalled-acknowledgement-then-reconnect", quick: 200, thorough: 40_000 }, Workload { name: "packet-at-the-broker-limit-in-pieces", quick: 200, thorough: 40_000 }]
+        vec![Workload { name: "fragment-twin", quick: 900, thorough: 600_000 }, Workload { name: "exhaustive-chunkings", quick: 60, thorough: 6000 }, Workload { name: "stalls-under-keepalive", quick: 400, thorough: 600_000 }, Workload { name: "connection-cut-inside-a-packet", quick: 150, thorough: 30_000 }, Workload { name: "send-buffer-full-inside-a-packet", quick: 300, thorough: 60_000 }, Workload { name: "connection-ends-inside-an-outbound-packet", quick: 200, thorough: 40_000 }, Workload { name: "outbound-packets-above-64k", quick: 12, thorough: 600 }, Workload { name: "stalled-disconnect-then-reconnect", quick: 200, thorough: 40_000 }, Workload { name: "stalled-acknowledgement-then-reconnect", quick: 200, thorough: 40_000 }, Workload { name: "packet-at-the-broker-limit-in-pieces", quick: 200, thorough: 40_000 }, Workload { name: "transport-accepts-nothing", quick: 400, thorough: 80_000 }]
     }
     fn min_nontrivial(&self, tier: Tier) -> usize {
         if tier == Tier::Quick { 300 } else { 3000 }
     }
     fn required_counters(&self) -> Vec<&'static str> {
-        vec!["twins_compared", "chunkings_enumerated_exhaustively", "variants_with_split_packets", "stalls_inside_a_packet", "calls_repeated_after_a_stall", "keepalive_stall_variants", "slow_partial_writes", "connections_cut_inside_a_packet", "requests_given_up_inside_their_packet", "connections_ended_inside_an_outbound_packet", "outbound_packets_above_64k", "disconnects_given_up_on_a_full_send_buffer", "acknowledgements_stuck_on_a_full_send_buffer", "packets_at_the_limit_in_pieces"]
+        vec!["twins_compared", "chunkings_enumerated_exhaustively", "variants_with_split_packets", "stalls_inside_a_packet", "calls_repeated_after_a_stall", "keepalive_stall_variants", "slow_partial_writes", "connections_cut_inside_a_packet", "requests_given_up_inside_their_packet", "connections_ended_inside_an_outbound_packet", "outbound_packets_above_64k", "disconnects_given_up_on_a_full_send_buffer", "acknowledgements_stuck_on_a_full_send_buffer", "packets_at_the_limit_in_pieces", "writes_answered_with_nothing_accepted"]
     }
     fn exhaustive(&self) -> bool {
         true
@@ -1713,6 +1803,9 @@ impl Check for C15 {
         }
         if workload == 9 {
             return at_the_limit(&mut rng, seed, verbose);
+        }
+        if workload == 10 {
+            return accepts_nothing(&mut rng, seed, verbose);
         }
         let profile = c15_profile(&mut rng);
         let cfg = {
